@@ -84,27 +84,49 @@ class Run:
         return r
 
     # -- the judge ----------------------------------------------------------------------------
-    def judge(self, cases, label, module='Judge', workers=16, timeout=3600):
-        """cases: list of dicts.  Returns list of (index, clauses).  Every case counts as a validated trace."""
+    def judge(self, cases, label, module='Judge', shards=16, timeout=3600):
+        """cases: list of dicts.  Returns list of (index, clauses).  Every case counts as a validated trace.
+        JSON loading is single-threaded inside one TLC, so the cases are split over `shards` parallel JVMs."""
         if not cases:
             return []
+        import concurrent.futures, shutil
+        shards = max(1, min(shards, (len(cases) + 199) // 200))
+        cfg = open(os.path.join(tla.SPEC, module + '.cfg')).read()
         wd = os.path.join(tla.WORK, f'{self.pid}-{label}')
         os.makedirs(wd, exist_ok=True)
-        path = os.path.join(wd, 'cases.ndjson')
-        with open(path, 'w') as fh:
-            for c in cases:
-                fh.write(json.dumps(c, separators=(',', ':')) + '\n')
-        cfg = open(os.path.join(tla.SPEC, module + '.cfg')).read()
-        r = tla.run_tlc(f'{self.pid}-{label}-tlc', module, cfg, workers=workers, timeout=timeout, env={'CASES': path}, heap='8g')
-        exp = 2 * len(cases) - 1
-        if not r.ok or r.distinct != exp:
-            self.machinery(f'judge {label}: TLC did not evaluate all cases (ok={r.ok}, distinct={r.distinct}, expected={exp}, error={r.error}); see {r.wd}/out.txt')
-            return []
-        self.traces += len(cases)
-        self.tlc_runs.append({'name': 'judge-' + label, 'module': module, 'cases': len(cases), 'wall_s': round(r.wall, 1)})
+        parts = []
+        per = (len(cases) + shards - 1) // shards
+        for k in range(shards):
+            chunk = cases[k * per:(k + 1) * per]
+            if not chunk:
+                continue
+            path = os.path.join(wd, f'cases{k}.ndjson')
+            with open(path, 'w') as fh:
+                for c in chunk:
+                    fh.write(json.dumps(c, separators=(',', ':')) + '\n')
+            parts.append((k, k * per, len(chunk), path))
+        t0 = time.time()
+
+        def one(part):
+            k, off, n, path = part
+            r = tla.run_tlc(f'{self.pid}-{label}-tlc{k}', module, cfg, workers=max(1, 16 // len(parts)), timeout=timeout,
+                            env={'CASES': path}, heap='3g')
+            return part, r
         fails = {}
-        for t in tla.prints(r.out, 'FAIL'):
-            fails[t[1] - 1] = list(t[2])
+        with concurrent.futures.ThreadPoolExecutor(len(parts)) as ex:
+            for (k, off, n, path), r in ex.map(one, parts):
+                exp = 2 * n - 1
+                if not r.ok or r.distinct != exp:
+                    self.machinery(f'judge {label}[{k}]: TLC did not evaluate all cases (ok={r.ok}, distinct={r.distinct}, expected={exp}, '
+                                   f'error={r.error}); see {r.wd}/out.txt')
+                    continue
+                for t in tla.prints(r.out, 'FAIL'):
+                    fails[off + t[1] - 1] = list(t[2])
+                os.remove(path)
+                shutil.rmtree(r.wd, ignore_errors=True)
+                self.traces += n
+        self.tlc_runs.append({'name': 'judge-' + label, 'module': module, 'cases': len(cases), 'shards': len(parts),
+                              'wall_s': round(time.time() - t0, 1)})
         return sorted(fails.items())
 
     # -- verdicts -------------------------------------------------------------------------------
